@@ -472,6 +472,24 @@ def check(run):
             good = ok == (cut == 0)
             run.check(good, 'D4', f'Slice.{meth}' if not good else f'{meth}[cut={cut}]',
                       f'{meth} on data truncated by {cut} bits: {"returned " + vrepr(out)[:40] if ok else "raised"}', wl)
+            if cut and not ok:
+                # the slice after a refused composite read is a slice like any other: reading more than what it still holds raises
+                left = rem(it, s)
+                for m2, a2 in (('load_uint', [K(left + 1)]), ('load_int', [K(left + 1)]), ('load_bits', [K(left + 1)]), ('skip_bits', [K(left + 1)]),
+                               ('load_bytes', [K(left // 8 + 1)]), ('load_uint', [K(64 + left)])):
+                    s3 = call(it, s, 'copy')
+                    for victim, label in ((s3, 'a copy of the slice'), (s, 'the slice')):
+                        before = rem(it, victim)
+                        try:
+                            o2 = call(it, victim, m2, *a2)
+                            over = True
+                        except RaiseEx:
+                            over = False
+                        run.check(not over, 'D4', f'Slice.{m2}[after a refused {meth}]' if over else f'{m2}{[x.v for x in a2]} after a refused {meth}[cut={cut}] on {label}',
+                                  f'after {meth} was refused ({before} bits left), {m2}({a2[0].v}) on {label} ' + (f'returned {vrepr(o2)[:40]} instead of raising' if over else 'raised'), wl)
+                        run.evaluations += 1
+                        if over:
+                            break
     # references
     for nref in range(0, 5):
         it = Interp(prog)
